@@ -276,8 +276,17 @@ func TestC42(t *testing.T) {
 					}
 				}
 			}
-			for _, h := range heights {
+			// about one case in sixty is a busy chain: the first three blocks hold 450-520 transactions each (mostly of the hot
+			// address), so that searches have more than a thousand matches and page sizes above a thousand mean something
+			bulk := rapid.Bool().Draw(rt, "bulkA") && rapid.Bool().Draw(rt, "bulkB") && rapid.Bool().Draw(rt, "bulkC") && rapid.Bool().Draw(rt, "bulkD") && rapid.Bool().Draw(rt, "bulkE") && rapid.Bool().Draw(rt, "bulkF")
+			if bulk {
+				c.Label("busy-chain-over-1000-matches")
+			}
+			for hi, h := range heights {
 				n := c42NTxGen.Draw(rt, "ntx")
+				if bulk && hi < 3 {
+					n = rapid.IntRange(450, 520).Draw(rt, "bulkNtx")
+				}
 				var txs []*c42Tx
 				for i := 0; i < n; i++ {
 					counter++
@@ -288,6 +297,9 @@ func TestC42(t *testing.T) {
 					x.hash = tmtypes.Tx(x.tx).Hash()
 					x.signer = drawAddr("signer")
 					x.recipient = drawAddr("recipient")
+					if bulk && hi < 3 && rapid.IntRange(0, 9).Draw(rt, "bulkHot") != 5 {
+						x.signer = e.addrs[0] // the busy account
+					}
 					switch rapid.IntRange(0, 9).Draw(rt, "outcome") {
 					case 0, 1: // ante handler level failure: must not be indexed
 						x.codespace, x.code = sdk.AuthCodespace, rapid.SampledFrom([]uint32{1, 2, 4, 9}).Draw(rt, "antecode")
@@ -301,6 +313,9 @@ func TestC42(t *testing.T) {
 					default:
 						x.log = "ok"
 					}
+					if bulk && hi < 3 && i%25 != 7 {
+						x.codespace, x.code, x.log = "", 0, "ok" // a busy chain of mostly successful transactions
+					}
 					x.indexed = !(x.codespace == "auth" && x.code < 10)
 					if !x.indexed {
 						c.Label("ante-failure-skipped")
@@ -309,7 +324,9 @@ func TestC42(t *testing.T) {
 					}
 					txs = append(txs, x)
 					e.all = append(e.all, x)
-					c.Opf("tx h=%d i=%d signer=%x recipient=%x cs=%q code=%d", h, i, x.signer, x.recipient, x.codespace, x.code)
+					if !bulk || i < 3 {
+						c.Opf("tx h=%d i=%d signer=%x recipient=%x cs=%q code=%d", h, i, x.signer, x.recipient, x.codespace, x.code)
+					}
 				}
 				blocks[h] = txs
 				how := rapid.SampledFrom([]string{"batch", "batch", "index"}).Draw(rt, "how")
@@ -409,6 +426,11 @@ func TestC42(t *testing.T) {
 					want = c42Reversed(want)
 				}
 				perPage := rapid.OneOf(rapid.IntRange(1, 4), rapid.IntRange(1, 12), rapid.IntRange(1, 50)).Draw(rt, "perPage")
+				if len(want) > 1000 {
+					// (page sizes up to 10000 are what the RPC layer lets through)
+					perPage = rapid.SampledFrom([]int{400, 1000, 1001, 1100, 1500, 5000, 10000}).Draw(rt, "bigPerPage")
+					c.Label("page-size-over-1000")
+				}
 				c.Opf("search %s order=%s per_page=%d (model matches %d)", qs, order, perPage, len(want))
 				c.Label(order)
 				c.Label("kind-" + kind)
